@@ -229,6 +229,43 @@ pub fn generate(ctx: &Ctx, rng: &mut Rng, n_ops: u64) -> String {
         s.push_str(&format!("O {}\n", op));
         s.push_str(&exec(ctx, st, &op));
     };
+    // non-transitive reachability: a -> m -> b connectable but not a -> b (m a maintenance slot).
+    // `Tour::new_dummy` drops m, leaving a dummy tour whose neighbours are not connectable.
+    let nn = ctx.nodes.len();
+    let mut triples: Vec<(usize, usize, usize)> = vec![];
+    for a in 0..nn {
+        for m in 0..nn {
+            for b in 0..nn {
+                let (na, nm, nb) = (ctx.n(a), ctx.n(m), ctx.n(b));
+                let nw = &ctx.nw;
+                if nw.node(na).is_service()
+                    && nw.node(nb).is_service()
+                    && nw.node(nm).is_maintenance()
+                    && nw.vehicle_type_for(na) == nw.vehicle_type_for(nb)
+                    && nw.can_reach(na, nm)
+                    && nw.can_reach(nm, nb)
+                    && !nw.can_reach(na, nb)
+                {
+                    triples.push((a, m, b));
+                }
+            }
+        }
+    }
+    if !triples.is_empty() && rng.chance(50) {
+        let (a, m, b) = *rng.pick(&triples);
+        let vt = ctx.nw.vehicle_type_for(ctx.n(a)).0 as usize;
+        do_op(&mut st, &mut s, format!("spawn {} {} {} {}", vt, a, m, b));
+        if let Some(&r) = st.regs.keys().last() {
+            do_op(&mut st, &mut s, format!("mkdummy {} {}", vt, r));
+            if let Some(&d) = st.regs.keys().last() {
+                if d != r {
+                    do_op(&mut st, &mut s, format!("subpath {} {} {}", d, a, b));
+                    do_op(&mut st, &mut s, format!("subpath {} {} {}", d, b, b));
+                    do_op(&mut st, &mut s, format!("removable {} {} {}", d, a, b));
+                }
+            }
+        }
+    }
     for _ in 0..n_ops {
         if st.regs.is_empty() || rng.chance(12) {
             let vt = rng.below(ntypes as u64) as usize;
@@ -287,14 +324,19 @@ pub fn generate(ctx: &Ctx, rng: &mut Rng, n_ops: u64) -> String {
                 let d = 2 * rng.below(ctx.ndepots() as u64) + 1;
                 do_op(&mut st, &mut s, format!("repend {} {}", r, d));
             }
-            95..=96 => {
+            95..=95 => {
                 let node = *rng.pick(&nodes);
                 do_op(&mut st, &mut s, format!("overhead {} {}", r, node));
             }
             _ => {
                 if !tour.is_dummy() {
                     // a dummy tour needs service nodes of one type
-                    let vt = rng.below(ntypes as u64) as usize;
+                    let _ = ntypes;
+                    let vt = tour
+                        .all_non_depot_nodes_iter()
+                        .find(|n| ctx.nw.node(*n).is_service())
+                        .map(|n| ctx.nw.vehicle_type_for(n).0 as usize)
+                        .unwrap_or(0);
                     do_op(&mut st, &mut s, format!("mkdummy {} {}", vt, r));
                 }
             }
